@@ -26,6 +26,8 @@ func TestMain(m *testing.M) {
 		childEvalLoop()
 	case "server":
 		childServer()
+	case "c14":
+		childC14()
 	default:
 		fmt.Fprintln(os.Stderr, "unknown VERIF_CHILD mode")
 		os.Exit(64)
